@@ -3279,6 +3279,18 @@ class QuicConnection:
             reason_phrase = ""
 
         reason_bytes = reason_phrase.encode("utf8")
+
+        # the frame must fit in the packet, truncate the reason phrase if needed
+        max_reason_length = builder.remaining_buffer_space - (
+            APPLICATION_CLOSE_FRAME_CAPACITY
+            if frame_type is None
+            else TRANSPORT_CLOSE_FRAME_CAPACITY
+        )
+        if len(reason_bytes) > max_reason_length:
+            reason_phrase = reason_bytes[: max(max_reason_length, 0)].decode(
+                "utf8", errors="ignore"
+            )
+            reason_bytes = reason_phrase.encode("utf8")
         reason_length = len(reason_bytes)
 
         if frame_type is None:
